@@ -136,4 +136,68 @@ theorem stored_not_absolute (p : Str) (h : p.head? ≠ some '/') : (storedName p
         have : a ≠ '/' := by intro e; apply hns; simp [e]
         cases ws <;> simp [List.intercalate, this]
 
+/-- a component that is a real directory or file name -/
+def cleanComp (c : Str) : Prop := c ≠ [] ∧ c ≠ ['.'] ∧ c ≠ ['.', '.']
+
+/-- the independent resolver only ever keeps real names on its stack: where an accepted name
+    ends up is a path of plain components under the virtual root -/
+theorem resolve_clean (cs : List Str) : ∀ (stack r : List Str),
+    Spec.resolve stack cs = some r → (∀ c ∈ stack, cleanComp c) → ∀ c ∈ r, cleanComp c := by
+  induction cs with
+  | nil => intro stack r h hs; simp [Spec.resolve] at h; subst h; exact hs
+  | cons c cs ih =>
+    intro stack r h hs
+    rw [Spec.resolve] at h
+    by_cases h1 : c = [] ∨ c = ['.']
+    · rw [if_pos h1] at h; exact ih stack r h hs
+    · rw [if_neg h1] at h
+      by_cases h2 : c = ['.', '.']
+      · rw [if_pos h2] at h
+        cases hrev : stack.reverse with
+        | nil => rw [hrev] at h; simp at h
+        | cons x up =>
+          rw [hrev] at h
+          refine ih up.reverse r h ?_
+          intro d hd
+          apply hs
+          have : d ∈ stack.reverse := by rw [hrev]; simp; right; simpa using hd
+          simpa using this
+      · rw [if_neg h2] at h
+        refine ih (stack ++ [c]) r h ?_
+        intro d hd
+        simp at hd
+        rcases hd with hd | hd
+        · exact hs d hd
+        · subst hd; exact ⟨fun e => h1 (Or.inl e), fun e => h1 (Or.inr e), h2⟩
+
+/-- the depth walk is monotone in the starting depth: what stays inside the root stays inside
+    every directory below it -/
+theorem depthWalk_mono (ps : List Str) : ∀ d k : Nat, depthWalk d ps = true → depthWalk (d + k) ps = true := by
+  induction ps with
+  | nil => intro d k _; simp [depthWalk]
+  | cons p ps ih =>
+    intro d k h
+    by_cases hp : p = ['.', '.']
+    · subst hp
+      cases d with
+      | zero => simp [depthWalk] at h
+      | succ d' =>
+        simp only [depthWalk, if_true] at h
+        have : d' + 1 + k = (d' + k) + 1 := by omega
+        rw [this]; simp only [depthWalk, if_true]
+        exact ih d' k h
+    · simp only [depthWalk, hp, if_false] at h ⊢
+      have : d + k + 1 = (d + 1) + k := by omega
+      rw [this]; exact ih (d + 1) k h
+
+/-- a name the `writestr`/`writef` gate accepts does not start with a slash -/
+theorem check_head (s : Str) (h : checkArchivePath s = true) : s.head? ≠ some '/' := by
+  unfold checkArchivePath at h
+  simp only [] at h
+  by_cases ha : (parse s).isAbsolute = true
+  · rw [if_pos ha] at h; simp at h
+  · have : rootOf s = [] := by
+      simpa [parse, PPath.isAbsolute] using ha
+    exact (rootOf_nil_iff s).mp this
+
 end SevenZ
